@@ -198,6 +198,10 @@ def real_write(c, tmp):
     fn = os.path.join(tmp, "nb.dat")
     if os.path.exists(fn):
         os.remove(fn)
+    if c["n"] % 3 != 1:
+        # a file of that name is left over from an earlier analysis (another trajectory): the call must replace it, not add to it
+        with open(fn, "w") as f:
+            f.write("id     cn     neighborlist\n1 2 2 3\n2 1 1\n3 1 1\n" * 3)
     s = snapshots_of(c)
     ppp = np.array([int(x) for x in c["ppp"]])
     # process-global numpy print options (a user's own, or left behind by another routine) must not change what is written:
